@@ -796,6 +796,14 @@ class ConfigurableReference:
       selector = import_manager.minimal_selector(self._configurable)
     else:
       selector = self.selector
+      complete_selector = self._configurable.selector
+      if _REGISTRY.matching_selectors(selector) != [complete_selector]:
+        # The selector as written no longer identifies the configurable (a
+        # configurable of the same name was registered since): use an
+        # unambiguous one, as for the configurable's own section.
+        selector = _REGISTRY.minimal_selector(complete_selector)
+        if self._configurable.is_method and '.' not in selector:
+          selector = '.'.join(complete_selector.split('.')[-2:])
     scoped_selector = '/'.join([*self.scopes, selector])
     return '@{}{}'.format(scoped_selector, maybe_parens)
 
